@@ -153,7 +153,10 @@ def evaluate__datetime_stamp_type(self: XPathConstructor, context: ta.ContextTyp
         result = self.cast(arg)
     else:
         result = self.cast(str(arg))
-    assert isinstance(result, DateTimeStamp)
+
+    if not isinstance(result, DateTimeStamp):
+        msg = "xs:dateTimeStamp is not recognized unless XSD 1.1 is enabled"
+        raise self.error('XPST0017', msg)
     return result
 
 
@@ -223,13 +226,13 @@ def evaluate__binary_types(self: XPathConstructor, context: ta.ContextType = Non
 
 @constructor('NOTATION')
 def cast__notation_type(self: XPathConstructor, value: ta.AtomicType) -> Notation:
-    raise NotImplementedError("No value is castable to xs:NOTATION")
+    raise self.error('XPST0017', "no constructor function exists for xs:NOTATION")
 
 
 @method('NOTATION')
 def nud__notation_type(self: XPathConstructor) -> None:
     if not self.parser.parse_arguments:
-        return
+        raise self.error('XPST0017', "no constructor function exists for xs:NOTATION")
 
     self.parser.advance('(')
     if self.parser.next_token.symbol == ')':
